@@ -580,6 +580,52 @@ fn run_one(family: &'static str, index: u64, d: &WDesc, cz: &Canon, dim: usize, 
         }
     }
     c.count(&format!("held:{name}"), 1);
+    // a second call on the diagram the first call left behind (already bipartite): nothing to
+    // subdivide any more, same boundary lists, and webs spanning the same space
+    if io_ok && (index + which as u64) % 3 == 0 {
+        let nv = g.num_vertices();
+        match guarded(|| detection_webs(&mut g)) {
+            Err(Caught::Oracle(m)) => c.inconclusive("oracle-error", json!({"msg": m})),
+            Err(e) => c.violation(&format!("detection_webs|panic:{}|second-call-on-the-left-diagram", e.site()), family, index, detail("panic in a second call", json!({"panic": e.text(), "graph_after_first_call": after}))),
+            Ok(webs2) => {
+                c.count("second-calls", 1);
+                let mut rows2: Vec<Row> = vec![];
+                let mut mapped = true;
+                for w in &webs2 {
+                    let mut row = f2::zero_row(cols);
+                    for (&(a, b), p) in w.edge_operators.iter() {
+                        let e = match (to_canon.get(&a), to_canon.get(&b)) {
+                            (Some(&ca), Some(&cb)) => cz.edge_index.get(&(ca.min(cb), ca.max(cb))).copied(),
+                            _ => None,
+                        };
+                        let Some(e) = e else {
+                            mapped = false;
+                            break;
+                        };
+                        if matches!(p, Pauli::X | Pauli::Y) {
+                            f2::set(&mut row, 2 * e, true);
+                        }
+                        if matches!(p, Pauli::Z | Pauli::Y) {
+                            f2::set(&mut row, 2 * e + 1, true);
+                        }
+                    }
+                    rows2.push(row);
+                }
+                let same_io = *g.inputs() == ins0 && *g.outputs() == outs0;
+                if g.num_vertices() != nv || !same_io || !mapped || rows2.len() != rows.len() || !f2::same_span(&rows, &rows2, cols) {
+                    c.violation(
+                        "detection_webs|second-call-on-the-left-diagram-differs",
+                        family,
+                        index,
+                        detail(
+                            "a second call on the (already bipartite) diagram left by the first call must change nothing and span the same web space",
+                            json!({"vertices_before_after": [nv, g.num_vertices()], "inputs_outputs_kept": same_io, "webs_use_only_existing_edges": mapped, "webs_first": rows.len(), "webs_second": rows2.len(), "graph_after_first_call": after, "graph_after_second_call": graph_dump(&g)}),
+                        ),
+                    );
+                }
+            }
+        }
+    }
     if io_ok {
         Some(rows)
     } else {
